@@ -391,6 +391,8 @@ func runReader(tb ev.TB, c readerCase) (labels []string, nontrivial bool) {
 			return &fakecluster.Action{NoResponse: true, Tag: "stall"}
 		case c.BrokerState == "stall-heartbeat" && r.ApiKey == 12:
 			return &fakecluster.Action{NoResponse: true, Tag: "stall"}
+		case c.BrokerState == "stall-commit" && r.ApiKey == 8:
+			return &fakecluster.Action{NoResponse: true, Tag: "stall"}
 		case c.BrokerState == "slow":
 			return &fakecluster.Action{Delay: 3 * time.Millisecond, Tag: "slow"}
 		}
@@ -645,7 +647,7 @@ func runReader(tb ev.TB, c readerCase) (labels []string, nontrivial bool) {
 	} else {
 		labels = append(labels, "plain_reader")
 	}
-	if c.BrokerState == "stall-fetch" || c.BrokerState == "stall-heartbeat" {
+	if c.BrokerState == "stall-fetch" || c.BrokerState == "stall-heartbeat" || c.BrokerState == "stall-commit" {
 		labels = append(labels, "blackholed_broker")
 	}
 	if c.Event == "cancel" && c.Blocked == "fetch" {
@@ -663,7 +665,7 @@ func TestReaderClose(t *testing.T) {
 			FetchFirst:  rapid.IntRange(0, 5).Draw(t, "fetchFirst"),
 			Blocked:     rapid.SampledFrom([]string{"fetch", "fetch", "commit", "none"}).Draw(t, "blocked"),
 			Event:       rapid.SampledFrom([]string{"close", "close", "cancel"}).Draw(t, "event"),
-			BrokerState: rapid.SampledFrom([]string{"normal", "normal", "normal", "normal", "normal", "slow", "slow", "slow", "stall-fetch", "stall-heartbeat", "coord-error", "coord-error"}).Draw(t, "broker"),
+			BrokerState: rapid.SampledFrom([]string{"normal", "normal", "normal", "normal", "normal", "slow", "slow", "slow", "stall-fetch", "stall-heartbeat", "stall-commit", "stall-commit", "coord-error", "coord-error"}).Draw(t, "broker"),
 			CommitMs:    rapid.SampledFrom([]int{0, 0, 10}).Draw(t, "commitMs"),
 			DelayUs:     rapid.SampledFrom([]int{0, 100, 2000, 30000}).Draw(t, "delayUs"),
 		}
